@@ -83,6 +83,12 @@ func (d *dumper) dump(sb *strings.Builder, v reflect.Value, depth int) {
 		}
 		sb.WriteString("(" + v.Type().Name())
 		isWith := v.Type().Name() == "With"
+		if n := v.Type().Name(); n == "intersect" || n == "union" || n == "UnionAll" || n == "unionAll" {
+			// set operations render each operand with its own WITH list: dump them in full
+			saved := d.inWith
+			d.inWith = 0
+			defer func() { d.inWith = saved }()
+		}
 		for i := 0; i < v.NumField(); i++ {
 			f := v.Type().Field(i)
 			sb.WriteString(" " + f.Name + "=")
